@@ -17,7 +17,7 @@ RULE = ('the real fabric with 1-3 subscriber queues; 1-2 client threads publish 
 ASSUMPTIONS = ['the stop wake-up item (priority 1 by design) is not a publication and is left out of the order']
 PROBES = ['fabric_get_with_3_or_more_items', 'fabric_get_with_priority_tie']
 PLAN = {
-  'quick': {'strata': {'bursts': 4000, 'restart': 1500}, 'wall_s': 300, 'chunk': 50, 'min_conclusive': 1000},
+  'quick': {'strata': {'bursts': 7000, 'restart': 3000}, 'wall_s': 300, 'chunk': 50, 'min_conclusive': 1000},
   'thorough': {'strata': {'bursts': 120000, 'restart': 50000}, 'wall_s': 900, 'chunk': 100, 'min_conclusive': 1000},
 }
 
